@@ -123,7 +123,8 @@ def show_meta(md):
     for c in md.get("chunks", []):
         infos.append("/".join([_o(c.get("chunk_i")), _o(c.get("n")), _o(c.get("start")), _o(c.get("end")), _o(c.get("run_id")),
                                show_runs_sorted(c.get("subruns")), _o(c.get("first_time")), _o(c.get("first_endtime")),
-                               _o(c.get("last_time")), _o(c.get("last_endtime")), _o(c.get("filename"))]))
+                               _o(c.get("last_time")), _o(c.get("last_endtime")), _o(c.get("filename")),
+                               _o(c.get("nbytes")), str(int("filesize" in c))]))
     return (f"start={_o(md.get('start'))} end={_o(md.get('end'))} we={int('writing_ended' in md)} exc={int('exception' in md)} "
             f"chunks=" + (";".join(infos) if infos else "-"))
 
@@ -309,8 +310,11 @@ def _impl(case):
 
 
 def to_op(case):
-    return " ".join(["c03.rt", str(int(case["rechunk"])), case["tamper"], case["run_id"], case["data_type"], case["kind"],
-                     str(case["hdr_target"]), _SIDE.get(case_key(case), {}).get("pfx") or pfx_of(case),
+    keys = case.get("order_keys") or []
+    return " ".join(["c03.rt", str(int(case["rechunk"])), str(int(case["save_exec"])), str(int(case["load_exec"])),
+                     sl.show_ints(keys), case["tamper"], case["run_id"], case["data_type"], case["kind"],
+                     str(case["hdr_target"]), str(dtype_of(case["enc"]).itemsize),
+                     _SIDE.get(case_key(case), {}).get("pfx") or pfx_of(case),
                      *[sl.raw_chunk_op(rc) for rc in case["chunks"]]])
 
 
@@ -371,6 +375,8 @@ def oracle_meta(msgs, case, md, files, dt, dirname):
             msgs.append(f"chunk {pos}: filesize = {c['filesize']} but the file has {size} bytes")
         if not case["save_exec"] and "filesize" not in c:
             msgs.append(f"chunk {pos}: no filesize recorded by the serial saver")
+        if size <= 0:
+            msgs.append(f"chunk {pos}: file {fn} is empty")
         ends = strax.endtime(data)
         exp = dict(first_time=int(data["time"][0]), first_endtime=int(ends[0]), last_time=int(data["time"][-1]),
                    last_endtime=int(ends[-1]))
@@ -447,8 +453,10 @@ def oracle(case, out):
             raise RuntimeError(f"generator produced a case outside the hypotheses although it was meant to be valid: {case}")
     if status == "save-err" and case.get("expect") == "valid" and all(rc["target"] >= 1 for rc in case["chunks"]):
         msgs.append(f"saving a law-abiding stream failed: {out.split(' ')[1]}")
-    if status == "load-err" and tam == "none" and valid and case["chunks"]:
+    if status == "load-err" and tam == "none" and (valid or case.get("expect") == "roundtrip") and case["chunks"]:
         msgs.append(f"loading back what was just saved failed: {out.split(' ## ')[2]}")
+    if status == "save-err" and case.get("expect") == "roundtrip":
+        msgs.append(f"saving a stream of valid chunks failed: {out.split(' ')[1]}")
     if status == "ok" and not case["chunks"]:
         msgs.append("loader returned normally on data without chunks")
     if status == "ok" and tam == "n" and side.get("rm_hit"):
@@ -462,7 +470,12 @@ def oracle(case, out):
 def base_case(rng, chunks, **kw):
     case = dict(enc=rng.choice(ENCS), comp=rng.choice(COMPRESSORS), rechunk=rng.randint(0, 1), save_exec=int(rng.random() < 0.35),
                 load_exec=int(rng.random() < 0.35), run_id="r", data_type="d", kind="k", hdr_target=3, tamper="none", chunks=chunks)
+    # the model's executor completes the pending writes in the order given by these sort keys (any permutation must
+    # give the same directory and metadata as the real pool, whose order the OS decides)
+    case["order_keys"] = [rng.randint(0, 5) for _ in range(rng.randint(0, 6))] if case["save_exec"] else []
     case.update(kw)
+    if not case["save_exec"]:
+        case["order_keys"] = []
     return case
 
 
@@ -555,6 +568,38 @@ def malformed_stream(rng):
     return chunks, why, kw
 
 
+def zero_subrun_cases(rng, n):
+    """super-run streams in which a sub-run contributes a zero-duration chunk (inside the quantifier of C03: 'including
+    empty and zero-duration chunks').  `adverse` = the id of the zero-length span sorts after the id of the sub-run that
+    follows it at the same time: the open finding C03-zero-length-subrun when the two end up in one stored chunk."""
+    out = []
+
+    def mk(zero_id, next_id, prev, rechunk, t0, rows_after, direct):
+        chunks = []
+        t = t0
+        if prev:
+            chunks.append(raw(0, t, [[0, 1, 0]] if t > 0 else [], 50, run_id="_sup", subruns={"p": {"start": 0, "end": t}} if t > 0 else {"p": {"start": 0, "end": 0}}))
+        end = t + 10
+        rows = [[t + 1 + 2 * i, t + 2 + 2 * i, 10 + i] for i in range(rows_after)]
+        if direct:   # one chunk already carrying both spans (as the rechunker would emit it)
+            chunks.append(raw(t, end, rows, 50, run_id="_sup", subruns={zero_id: {"start": t, "end": t}, next_id: {"start": t, "end": end}}))
+        else:
+            chunks.append(raw(t, t, [], 50, run_id="_sup", subruns={zero_id: {"start": t, "end": t}}))
+            chunks.append(raw(t, end, rows, 50, run_id="_sup", subruns={next_id: {"start": t, "end": end}}))
+        return chunks, (direct or bool(rechunk)) and zero_id > next_id
+    # the minimal witness first
+    c, adv = mk("b", "a", False, 1, 0, 2, False)
+    out.append(base_case(rng, c, run_id="_sup", rechunk=1, hdr_target=50, expect="roundtrip", adverse=adv, save_exec=0, load_exec=0, enc="end", comp="zstd"))
+    for _ in range(n - 1):
+        zid, nid = rng.sample(["a", "b", "m", "s1", "s10", "z"], 2)
+        prev = rng.random() < 0.5
+        rechunk = rng.randint(0, 1)
+        direct = rng.random() < 0.3
+        c, adv = mk(zid, nid, prev, rechunk, rng.randint(1, 40) if prev else rng.randint(0, 40), rng.randint(0, 3), direct)
+        out.append(base_case(rng, c, run_id="_sup", rechunk=rechunk, hdr_target=50, expect="roundtrip", adverse=adv))
+    return out
+
+
 TAMPERS = ["n:{k}:1", "n:{k}:-1", "n:{k}:0", "rm:{k}", "nofn:{k}", "rid:{k}:_x", "rid:{k}:-", "rid:{k}:zz", "swap:{j}:{k}", "range:{k}:1:0",
            "range:{k}:0:-1", "range:{k}:-1:1", "nochunks"]
 
@@ -609,7 +654,7 @@ def run(ctx):
     # 1. random law-abiding streams
     cases = []
     for _ in range(ctx.pick(1500, 14000)):
-        sup = rng.random() < 0.15
+        sup = rng.random() < 0.2
         chunks = valid_stream(rng, superrun=sup)
         cases.append(base_case(rng, chunks, run_id="_sup" if sup else "r", hdr_target=chunks[0]["target"] if rng.random() < 0.8 else rng.randint(1, 9),
                                expect="valid"))
@@ -632,6 +677,7 @@ def run(ctx):
     cases = []
     for j, (parts, rechunk, target) in enumerate(ex):
         cases.append(dict(enc=ENCS[j % 4], comp=COMPRESSORS[(j // 4) % 4], rechunk=rechunk, save_exec=int(j % 7 == 0), load_exec=int(j % 5 == 0),
+                          order_keys=[3, 1, 2, 0] if j % 7 == 0 else [],
                           run_id="r", data_type="d", kind="k", hdr_target=target, tamper="none", expect="valid",
                           chunks=[raw(a, b, rs, target) for a, b, rs in parts]))
     go("saveload/exhaustive", cases,
@@ -658,6 +704,14 @@ def run(ctx):
        "streams breaking one law or convention (gap, out of order, mixed data types / run ids, target 0, zero-length subrun, subruns on a plain run, "
        "super-run id without subruns, negative start, header target != chunk target, row outside its chunk): verdicts and what is left on disk "
        "compared with the model; plain round trip still demanded whenever every chunk is a valid chunk")
+
+    # 5. zero-duration chunks inside super-runs (open finding C03-zero-length-subrun on the adverse id order)
+    cases = zero_subrun_cases(rng, ctx.pick(120, 1200))
+    go("saveload/zero-length-subrun", cases,
+       "super-run streams in which one sub-run contributes a zero-duration chunk followed by a chunk of another sub-run starting at the same "
+       "time (optionally after an earlier sub-run; rechunk on/off; or one chunk carrying both spans): the round trip is demanded for all of "
+       "them; it fails exactly when both spans end up in one stored chunk and the zero-length span's id sorts after the other's "
+       "(KNOWN-FINDING C03-zero-length-subrun), model and implementation agreeing on every verdict")
 
     ctx.note("input distribution: " + ", ".join(f"{k}:{v}" for k, v in sorted(dist.items())))
 
